@@ -1,4 +1,5 @@
 import EmmetProofs.SnipTermination
+import EmmetProofs.ResolveTerminates
 /-! # C14 — snippet resolution ends for every table (abstract resolver: nesting counter + structural recursion over the forest)
 
 `resolveN tbl parse n` resolves a node through the table with at most `n` nested snippets; `walkWith` applies it over a
@@ -10,5 +11,12 @@ namespace EmmetProps
 theorem C14_terminates (tbl : List (Sn.Key × Sn.Val)) (parse : Sn.Val → Except Sn.Err Sn.F)
     (hp : ∀ v, parse v ≠ .error .fuel) (f : Sn.F) :
     Sn.walkWith (Sn.resolveN tbl parse (tbl.length + 1)) f [] ≠ .error .fuel := Sn.C14_terminates tbl parse hp f
+
+/-- the same on the MODEL of `markup/snippets.py` (`T.resolveSnippets`: nesting counter `|table| + 1`, structural recursion over the
+abbreviation tree): for every option set (hence every merged snippet table) and every forest, resolution never exhausts the
+counter. The abbreviation parser's own fuel is a hypothesis here; for tokenizer and parser it is discharged by C18 / C07. -/
+theorem C14_terminates_model (o : T.Options)
+    (hp : ∀ sn, T.parseAbbr sn false { text := .none, variables := some o.variables, maxRepeat := o.maxRepeatSnake } ≠ .error .fuel)
+    (nodes : List T.ANode) : T.resolveSnippets o nodes ≠ .error .fuel := T.resolve_terminates o hp nodes
 
 end EmmetProps
